@@ -45,7 +45,8 @@ def cases(tier, seed):
     base += [{'fam': 'C11X', 'kind': 'same_name_roms'}, {'fam': 'C11X', 'kind': 'generator_twice'}]
     for i, c in enumerate(base):
         for f in FUNCS:
-            out.append(dict(c, K=3, func=f, edit=EDITS[(i + FUNCS.index(f)) % len(EDITS)]))
+            # 'foreign': the source is passed as block= while an unrelated block is the working block
+            out.append(dict(c, K=3, func=f, edit=EDITS[(i + FUNCS.index(f)) % len(EDITS)], wb='foreign' if (i + FUNCS.index(f)) % 3 == 0 else 'same'))
     return out
 
 
@@ -86,6 +87,17 @@ def fingerprint(b):
     byname = sorted((k, id(v)) for k, v in b.wirevector_by_name.items())
     membyname = sorted((k, id(v)) for k, v in getattr(b, 'memblock_by_name', {}).items())
     return (wires, nets, mems, byname, membyname)
+
+
+def decoy_block():
+    b = pyrtl.Block()
+    with pyrtl.set_working_block(b, no_sanity_check=True):
+        x = pyrtl.Input(2, 'x_other')
+        r = pyrtl.Register(2, 'r_other')
+        r.next <<= x
+        y = pyrtl.Output(2, 'y_other')
+        y <<= ~r
+    return b
 
 
 def mems_registered(B):
@@ -190,12 +202,19 @@ def run_case(case, ob, tier):
     assume = [z3.Not(d) for d in sp.double_write]
     before = trace_of(A, K, v, assume)
     fp0 = fingerprint(A)
+    decoy = None
+    if case.get('wb') == 'foreign':
+        decoy = decoy_block()
+        pyrtl.set_working_block(decoy, no_sanity_check=True)
+        fpd = fingerprint(decoy)
     wb0 = pyrtl.working_block()
     try:
         B = call(case, A)
     except Exception as e:
         ob.fact('call-accepts-design', False, site + ':raises', detail='%s: %s' % (type(e).__name__, e))
         return
+    if decoy is not None:
+        ob.fact('unrelated-working-block-untouched', fingerprint(decoy) == fpd, site + ':foreign-working-block')
     ob.fact('source-fingerprint-unchanged', fingerprint(A) == fp0, site + ':fingerprint')
     ob.fact('working-block-left-as-it-was', pyrtl.working_block() is wb0, site + ':working_block')
     ob.fact('result-is-a-different-block', B is not A, site + ':same-object')
@@ -270,11 +289,18 @@ def replay(cex):
     site = cex.get('site', '')
     A = designs.build(case)
     fp0 = fingerprint(A)
+    decoy = None
+    if case.get('wb') == 'foreign':
+        decoy = decoy_block()
+        pyrtl.set_working_block(decoy, no_sanity_check=True)
+        fpd = fingerprint(decoy)
     wb0 = pyrtl.working_block()
     try:
         B = call(case, A)
     except Exception as e:
         return True, 'call raised %s: %s' % (type(e).__name__, e)
+    if cex.get('structural') and cex.get('obligation') == 'unrelated-working-block-untouched':
+        return fingerprint(decoy) != fpd, 'the unrelated working block was modified'
     if cex.get('structural'):
         checks = {'source-fingerprint-unchanged': fingerprint(A) == fp0,
                   'working-block-left-as-it-was': pyrtl.working_block() is wb0,
